@@ -38,7 +38,7 @@ pub struct Case {
 fn step_strategy() -> impl Strategy<Value = Step> {
     prop_oneof![
         10 => (any::<u8>(), any::<u16>()).prop_map(|(sk, item)| Step::Update { sk, item }),
-        8 => (any::<u8>(), any::<u16>(), any::<u16>(), proptest::bool::weighted(0.15))
+        8 => (any::<u8>(), any::<u16>(), prop_oneof![1 => Just(0u16), 20 => any::<u16>()], proptest::bool::weighted(0.15))
             .prop_map(|(sk, item, frac, big)| Step::UpdateW { sk, item, frac, big }),
         3 => (any::<u8>(), 1u16..=400, any::<u64>()).prop_map(|(sk, n, seed)| Step::Burst { sk, n, seed }),
         3 => (any::<u8>(), any::<u8>()).prop_map(|(dst, src)| Step::Merge { dst, src }),
@@ -331,7 +331,8 @@ fn run_typed<T: Cnt>(c: &Case, info: &mut CaseInfo) -> Result<(), Fail> {
                     continue;
                 }
                 let cap = if *big { head } else { head.min(50) };
-                let w = ((((*frac as u128) + 1) * cap as u128) >> 16).max(1) as u64;
+                // frac = 0: a weight of zero (a no-op in the library and in the model)
+                let w = if *frac == 0 { 0 } else { ((((*frac as u128) + 1) * cap as u128) >> 16).max(1) as u64 };
                 upd(&mut sides[j], id, w, &bk);
             }
             Step::Burst { sk, n, seed } => {
